@@ -95,17 +95,26 @@ def r_iter_readitems(F, R):
             alts = [nobb(t) for t in ret_alts(ctx) if t != NONE]
             arms = set()
             bad = []
+            # the two representations: region-backed (delegates to the inner iterator) and owned
+            # (borrows each element); Ok / Err on the pinned tree, any two variants of a private
+            # either-type otherwise
+            variants_seen = {}
             for t in alts:
                 if t[0] == "call" and t[1] == ("Iterator", "next") and t[2][0][0] == "place" and \
-                        t[2][0][3][-2:] == ("v:Ok", "f:0"):
+                        len(t[2][0][3]) >= 2 and t[2][0][3][-2].startswith("v:") and t[2][0][3][-1] == "f:0":
                     arms.add("Ok")
+                    variants_seen["Ok"] = t[2][0][3][-2]
                 elif t[0] == "agg" and t[1] == "Option::Some" and t[2][0][0] == "call" and \
                         t[2][0][1] == ("IntoOwned", "borrow_as") and t[2][0][2][0][0] == "call" and \
                         t[2][0][2][0][1] == ("Iterator", "next") and t[2][0][2][0][3] == ("v:Some", "f:0") and \
-                        t[2][0][2][0][2][0][0] == "place" and t[2][0][2][0][2][0][3][-2:] == ("v:Err", "f:0"):
+                        t[2][0][2][0][2][0][0] == "place" and len(t[2][0][2][0][2][0][3]) >= 2 and \
+                        t[2][0][2][0][2][0][3][-2].startswith("v:") and t[2][0][2][0][2][0][3][-1] == "f:0":
                     arms.add("Err")
+                    variants_seen["Err"] = t[2][0][2][0][2][0][3][-2]
                 else:
                     bad.append(show(t)[:100])
+            if len(variants_seen) == 2 and variants_seen["Ok"] == variants_seen["Err"]:
+                bad.append("both arms read the same variant %s" % variants_seen["Ok"])
             R.check("R-ITER", b.label(), arms == {"Ok", "Err"} and not bad and not bad_adaptors(b),
                     construct="next delegates to the matching arm's next",
                     where=b.where(), detail="yields %s" % [show(t)[:100] for t in alts])
